@@ -198,7 +198,13 @@ func evalTCP(name string, s *lookupScript, obs []*connObs, start, end time.Time,
 }
 
 // buildEntry derives the expected stored answer from the two accepted responses.
-func buildEntry(acc map[int]*item, t0, t1 time.Time) *entry {
+//
+// leftovers are messages from the configured server with one of the lookup's IDs that were
+// received but not accepted (truncated over UDP, damaged after some records): the
+// documentation does not say whether their TTLs may shorten the lifetime of the stored
+// answer, so each of them is one more admissible member (never a longer lifetime than the
+// accepted answers allow on their own... unless the documentation's own members are longer).
+func buildEntry(acc map[int]*item, t0, t1 time.Time, leftovers ...*item) *entry {
 	e := &entry{}
 	var all, chain []uint32
 	other := false
@@ -246,10 +252,13 @@ func buildEntry(acc map[int]*item, t0, t1 time.Time) *entry {
 	}
 	var ds []time.Duration
 	var tags []string
-	add := func(sec uint32, tag string) {
-		ds = append(ds, time.Duration(sec)*time.Second)
-		tags = append(tags, tag)
+	addDur := func(d time.Duration, tag string) {
+		if !slices.Contains(ds, d) {
+			ds = append(ds, d)
+			tags = append(tags, tag)
+		}
 	}
+	add := func(sec uint32, tag string) { addDur(time.Duration(sec)*time.Second, tag) }
 	if len(all) > 0 {
 		add(slices.Min(all), "min-answer-ttl")
 		if slices.Max(all) >= 1<<31 {
@@ -260,13 +269,28 @@ func buildEntry(acc map[int]*item, t0, t1 time.Time) *entry {
 		add(slices.Min(chain), "min-address-chain-ttl")
 	}
 	if failure {
-		ds = append(ds, failureCaching)
-		tags = append(tags, "failure-caching")
+		addDur(failureCaching, "failure-caching")
 	}
 	for _, s := range soa {
 		add(s, "soa")
 		if s >= 1<<31 {
 			add(0, "ttl-msb-as-zero")
+		}
+	}
+	for _, it := range leftovers {
+		for _, r := range it.Msg.Answers {
+			add(r.TTL, "leftover-ttl")
+			// A record of the other family inside a discarded response of the server: whether it
+			// may end up in the answer is as open as for accepted responses.
+			if r.Type == tA && it.Fam == 6 {
+				e.crossA = append(e.crossA, r.Addr)
+			} else if r.Type == tAAAA && it.Fam == 4 {
+				e.crossAAAA = append(e.crossAAAA, r.Addr)
+			}
+		}
+		switch it.Msg.RCode {
+		case 1, 2, 4, 5:
+			addDur(failureCaching, "leftover-failure-caching")
 		}
 	}
 	for i, d := range ds {
